@@ -1,7 +1,314 @@
 package engine
 
-// TryReplay attempts to reproduce a failed obligation on the real code by running the harness
-// function with the model's inputs as an in-package test (go test -overlay). Returns whether it reproduced.
+import (
+	"encoding/json"
+	"fmt"
+	"go/types"
+	"os"
+	"os/exec"
+	"path/filepath"
+	"strings"
+	"time"
+
+	"govc/smt"
+)
+
+// TryReplay attempts to reproduce a failed obligation on the real code: the harness is an executable Go function,
+// so the solver's model of its inputs is turned into literal arguments and the harness is run as an in-package test
+// (go test -overlay: nothing is written into the repository). It reports whether the same obligation failed at run
+// time (the assertion label was recorded, or a run-time panic occurred for a safety obligation).
 func TryReplay(w *World, r *HarnessResult, o *Obligation, replayPath string) (bool, string) {
-	return false, "replay generator not available for this harness shape"
+	note := func(s string) (bool, string) {
+		appendFile(replayPath, "replay: "+s+"\n")
+		return false, s
+	}
+	if o.failQ == nil || r.engine == nil {
+		return note("no term-level query kept for this obligation")
+	}
+	e := r.engine
+	c := e.C
+	fn := r.Harness.Fn
+	if fn.Signature.Recv() != nil || fn.TypeParams().Len() > 0 || len(fn.TypeArgs()) > 0 {
+		return note("harness shape not supported by the replay generator (method or generic)")
+	}
+	type slot struct {
+		name  string
+		typ   types.Type
+		kind  string // scalar | bool | bytes | string | slice
+		elem  types.Type
+		leafs []*smt.Term
+	}
+	var slots []slot
+	li := 0
+	for _, p := range fn.Params {
+		lv := e.ly.of(p.Type())
+		leaves := make([]*smt.Term, len(lv))
+		for i := range lv {
+			leaves[i] = o.Inputs[li+i].Term
+		}
+		li += len(lv)
+		s := slot{name: p.Name(), typ: p.Type(), leafs: leaves}
+		switch u := p.Type().Underlying().(type) {
+		case *types.Basic:
+			switch {
+			case u.Info()&types.IsBoolean != 0:
+				s.kind = "bool"
+			case u.Info()&types.IsString != 0:
+				s.kind = "string"
+			case u.Info()&types.IsInteger != 0:
+				s.kind = "scalar"
+			default:
+				return note("parameter " + p.Name() + " of type " + p.Type().String() + " not supported by the replay generator")
+			}
+		case *types.Slice:
+			if st, ok := u.Elem().Underlying().(*types.Struct); ok {
+				for i := 0; i < st.NumFields(); i++ {
+					fb, ok := st.Field(i).Type().Underlying().(*types.Basic)
+					if !ok || fb.Info()&types.IsInteger == 0 {
+						return note("parameter " + p.Name() + " of type " + p.Type().String() + " not supported by the replay generator")
+					}
+				}
+				s.kind, s.elem = "slice", u.Elem()
+				break
+			}
+			b, ok := u.Elem().Underlying().(*types.Basic)
+			if !ok || b.Info()&types.IsInteger == 0 {
+				return note("parameter " + p.Name() + " of type " + p.Type().String() + " not supported by the replay generator")
+			}
+			s.kind, s.elem = "slice", u.Elem()
+		default:
+			return note("parameter " + p.Name() + " of type " + p.Type().String() + " not supported by the replay generator")
+		}
+		slots = append(slots, s)
+	}
+	// second solve: small lengths, and the contents of the input slices
+	const maxElems = 48
+	var res smt.Result
+	var q2 *smt.Query
+	solved := false
+	for _, bound := range []uint64{8, maxElems} {
+		q2 = &smt.Query{Asserts: append([]*smt.Term{}, o.failQ.Asserts...)}
+		for _, s := range slots {
+			switch s.kind {
+			case "slice", "string":
+				q2.Asserts = append(q2.Asserts, c.Ule(s.leafs[2], c.Const(bound, 64)))
+				if s.kind == "slice" {
+					q2.Asserts = append(q2.Asserts, c.Ule(s.leafs[3], c.Const(bound+8, 64)))
+				}
+			}
+		}
+		for _, s := range slots {
+			q2.Values = append(q2.Values, s.leafs...)
+			if s.kind == "slice" || s.kind == "string" {
+				var elem types.Type = types.Typ[types.Uint8]
+				if s.kind == "slice" {
+					elem = s.elem
+				}
+				for i := uint64(0); i < bound; i++ {
+					for j := range e.ly.of(elem) {
+						in := e.initNode(elem, j)
+						q2.Values = append(q2.Values, c.App(in.uf, s.leafs[0], c.Add(s.leafs[1], c.Const(i, 64))))
+					}
+				}
+			}
+		}
+		tmp, err := os.MkdirTemp("", "govc-replay-")
+		if err != nil {
+			return note(err.Error())
+		}
+		res = smt.SolveText(c.Print(q2, false), "", len(q2.Values), smt.DefaultSolvers(20)[:1], tmp, "replay", 20, 1)
+		os.RemoveAll(tmp)
+		if res.Status == smt.Sat {
+			solved = true
+			// decode with this bound
+			vi := 0
+			var args []string
+			for _, s := range slots {
+				get := func() uint64 {
+					v, _ := smt.ParseBV(res.Values[vi])
+					vi++
+					return v
+				}
+				switch s.kind {
+				case "scalar":
+					v := get()
+					args = append(args, goIntLit(s.typ, v))
+				case "bool":
+					args = append(args, fmt.Sprint(get() != 0))
+				case "string", "slice":
+					get() // base
+					get() // off
+					n := get()
+					capv := n
+					if s.kind == "slice" {
+						capv = get()
+						if capv < n {
+							capv = n
+						}
+					}
+					nl := 1
+					if s.kind == "slice" {
+						nl = len(e.ly.of(s.elem))
+					}
+					elems := make([]uint64, int(bound)*nl)
+					for i := range elems {
+						elems[i] = get()
+					}
+					if n > bound {
+						n = bound
+					}
+					if s.kind == "string" {
+						bs := make([]byte, n)
+						for i := range bs {
+							bs[i] = byte(elems[i])
+						}
+						args = append(args, fmt.Sprintf("%q", string(bs)))
+					} else {
+						var parts []string
+						for i := uint64(0); i < n; i++ {
+							if st, ok := s.elem.Underlying().(*types.Struct); ok {
+								var fs []string
+								for j := 0; j < st.NumFields(); j++ {
+									fs = append(fs, goIntLit(st.Field(j).Type(), elems[int(i)*nl+j]))
+								}
+								parts = append(parts, "{"+strings.Join(fs, ", ")+"}")
+							} else {
+								parts = append(parts, goIntLit(s.elem, elems[i]))
+							}
+						}
+						ts := types.TypeString(s.typ, func(p *types.Package) string {
+							if p == fn.Pkg.Pkg {
+								return ""
+							}
+							return p.Name()
+						})
+						es := types.TypeString(s.elem, func(p *types.Package) string {
+							if p == fn.Pkg.Pkg {
+								return ""
+							}
+							return p.Name()
+						})
+						args = append(args, fmt.Sprintf("append(make(%s, 0, %d), []%s{%s}...)", ts, capv, es, strings.Join(parts, ", ")))
+					}
+				}
+			}
+			return runReplay(w, r, o, replayPath, args)
+		}
+	}
+	if !solved {
+		return note("no model with small input lengths (" + res.Status.String() + "); not replayed")
+	}
+	return false, ""
+}
+
+func goIntLit(t types.Type, v uint64) string {
+	b := t.Underlying().(*types.Basic)
+	w := basicWidth(b)
+	name := types.TypeString(t, func(p *types.Package) string { return "" })
+	if b.Info()&types.IsUnsigned != 0 {
+		if w < 64 {
+			v &= (uint64(1) << uint(w)) - 1
+		}
+		return fmt.Sprintf("%s(%d)", name, v)
+	}
+	var s int64
+	switch w {
+	case 8:
+		s = int64(int8(v))
+	case 16:
+		s = int64(int16(v))
+	case 32:
+		s = int64(int32(v))
+	default:
+		s = int64(v)
+	}
+	return fmt.Sprintf("%s(%d)", name, s)
+}
+
+func runReplay(w *World, r *HarnessResult, o *Obligation, replayPath string, args []string) (bool, string) {
+	fn := r.Harness.Fn
+	pkgPath := fn.Pkg.Pkg.Path()
+	dir := "/repo"
+	if strings.HasSuffix(pkgPath, "/commit") {
+		dir = "/repo/commit"
+	}
+	label := o.Name[strings.Index(o.Name, "#")+1:]
+	if i := strings.Index(label, "@"); i >= 0 {
+		label = label[:i]
+	}
+	isSafety := o.Kind == KindSafety || o.Kind == KindPanic
+	src := fmt.Sprintf(`package %s
+
+import (
+	"fmt"
+	"testing"
+)
+
+// Generated by govc: replays the solver's counterexample for obligation
+//   %s
+// by running the (executable) contract on the real code.
+func TestGovcReplay(t *testing.T) {
+	vFailures = nil
+	var panicked interface{}
+	func() {
+		defer func() { panicked = recover() }()
+		%s(%s)
+	}()
+	if _, ok := panicked.(vAssumeFailed); ok {
+		fmt.Println("GOVC-REPLAY: inputs do not satisfy an assumption of the contract at run time (not reproduced)")
+		return
+	}
+	if panicked != nil {
+		fmt.Printf("GOVC-REPLAY: PANIC %%v\n", panicked)
+		if %v {
+			t.Fatalf("reproduced: run-time panic %%v", panicked)
+		}
+		return
+	}
+	for _, f := range vFailures {
+		if f == %q {
+			t.Fatalf("reproduced: assertion %%q is false on the real code", f)
+		}
+	}
+	fmt.Printf("GOVC-REPLAY: not reproduced (failed assertions: %%v)\n", vFailures)
+}
+`, fn.Pkg.Pkg.Name(), o.Name, fn.Name(), strings.Join(args, ", "), isSafety, label)
+	tmp, err := os.MkdirTemp("", "govc-replay-")
+	if err != nil {
+		return false, err.Error()
+	}
+	defer os.RemoveAll(tmp)
+	testFile := filepath.Join(tmp, "zz_govc_replay_test.go")
+	os.WriteFile(testFile, []byte(src), 0o644)
+	ov, _ := json.Marshal(map[string]map[string]string{"Replace": {filepath.Join(dir, "zz_govc_replay_test.go"): testFile}})
+	ovFile := filepath.Join(tmp, "ov.json")
+	os.WriteFile(ovFile, ov, 0o644)
+	cmd := exec.Command("go", "test", "-tags", "verif", "-overlay", ovFile, "-vet=off", "-count=1", "-timeout", "60s", "-run", "^TestGovcReplay$", ".")
+	cmd.Dir = dir
+	cmd.Env = append(os.Environ(), "GOFLAGS=-mod=mod", "GOPROXY=off", "GOSUMDB=off", "GOTOOLCHAIN=local")
+	done := make(chan struct{})
+	var out []byte
+	go func() { out, _ = cmd.CombinedOutput(); close(done) }()
+	select {
+	case <-done:
+	case <-time.After(180 * time.Second):
+		if cmd.Process != nil {
+			cmd.Process.Kill()
+		}
+		<-done
+	}
+	text := string(out)
+	reproduced := strings.Contains(text, "reproduced: ") && strings.Contains(text, "--- FAIL: TestGovcReplay")
+	appendFile(replayPath, "\nreplay on the real code (go test -tags verif -overlay, harness called with the model's inputs):\n  "+
+		fn.Name()+"("+strings.Join(args, ", ")+")\n"+text+"\n--- generated test ---\n"+src)
+	return reproduced, ""
+}
+
+func appendFile(path, s string) {
+	f, err := os.OpenFile(path, os.O_APPEND|os.O_WRONLY|os.O_CREATE, 0o644)
+	if err != nil {
+		return
+	}
+	defer f.Close()
+	f.WriteString(s)
 }
